@@ -547,6 +547,9 @@ def float_trace(tdgl, a, tmp):
     idx = np.array([where[tuple(sorted(map(int, e)))] for e in edges])
     fl, fd, fa, freg = fp["length"][idx], fp["dual"][idx], fp["area"], fp["regular"][idx]
     wc = fp["well_centred"]
+    if wc.sum() * 10 < n * 8:
+        # (random smoothed meshes) too far from a Voronoi-dual mesh for the first-principles comparison to say much: not used
+        return {"kind": "refused", "label": a.get("label"), "why": f"only {int(wc.sum())} of {n} sites are well centred"}
     ewc = wc[edges[:, 0]] & wc[edges[:, 1]]                      # edges with two well-centred end points
     bwc = ewc[bidx]
     same_boundary = set(map(int, bidx)) == set(int(k) for k in np.nonzero(fp["boundary"][idx])[0])
@@ -809,8 +812,8 @@ FLOAT_MESHES_QUICK = [
     dict(kind="smoothed", label="mesh.smooth(3)/delaunay", base=dict(kind="delaunay", seed=0, nb=8, nin=40), n=3),
     dict(kind="smoothed", label="mesh.smooth(1)/meshpy film+hole", base=dict(kind="device", mel=0.6, holes=[(0.3, 0.1, 0.6)]), n=1, reflex=True),
     # a meshed device with xi != 1 length unit after a rigid translation (in place / inside the context manager)
-    dict(kind="device", label="meshpy/xi=0.5/hole/translate(3,-1.5) in place", xi=0.5, mel=0.5, holes=[(0.3, 0.1, 0.6)], translate=(3.0, -1.5), reflex=True),
-    dict(kind="device", label="meshpy/xi=2/terminals/with translation(-4,2.5)", xi=2.0, mel=1.2, terminals=True, translate=(-4.0, 2.5), context=True),
+    dict(kind="device", label="meshpy/xi=0.5/hole/translate(3,-1.5) in place", xi=0.5, mel=0.6, smooth=30, holes=[(0.3, 0.1, 0.6)], translate=(3.0, -1.5), reflex=True),
+    dict(kind="device", label="meshpy/xi=2/terminals/with translation(-4,2.5)", xi=2.0, mel=0.8, smooth=5, terminals=True, translate=(-4.0, 2.5), context=True),
 ]
 ROUTES = {"device": "Device.make_mesh", "translated": "Device.translate(inplace) / device.translation()", "lattice": "Mesh.from_triangulation", "delaunay": "Mesh.from_triangulation",
           "smoothed": "Mesh.smooth(n)"}
@@ -851,6 +854,10 @@ def float_meshes(ctx):
         for k in range(8):
             out.append(dict(kind="polygon", label=f"polygon.make_mesh/t{k}", notch=bool(k % 2), reflex=bool(k % 2),
                             min_points=rnd2.choice([120, 200, 300]), smooth=rnd2.choice([0, 1, 2, 5, 10])))
+        for k in range(3):
+            out.append(dict(kind="device", label=f"meshpy/translated/t{k}", xi=[0.5, 2.0, 1.5][k], mel=[0.6, 0.8, 0.7][k], smooth=[30, 5, 10][k],
+                            holes=[[(0.3, 0.1, 0.6)], [], [(0.3, 0.1, 0.6)]][k], terminals=(k == 1), reflex=(k != 1),
+                            translate=(rnd2.randint(-40, 40) / 8, rnd2.randint(-40, 40) / 8), context=bool(k % 2)))
         for k in range(6):
             base = rnd2.choice([dict(kind="delaunay", seed=50 + k, nb=rnd2.randint(7, 12), nin=rnd2.randint(30, 90)),
                                 dict(kind="device", mel=0.6, holes=[(0.3, 0.1, 0.6)]),
@@ -907,6 +914,18 @@ OBS = ["abs_psi", "supercurrent", "normal_current", "mu_diff"]
 def _device(tdgl, a):
     from . import devices
 
+    if a.get("history") == "xi edited in place":
+        # a device that was used (its derived scales read, a short solve) at xi = 1, then given another coherence length by
+        # assignment to device.layer.coherence_length, re-meshed and used again
+        dev = copy.deepcopy(devices.make(tdgl, a.get("dev", "bar"), mel=a.get("mel", 0.8), xi=1.0))
+        _ = (dev.Bc2, dev.A0, dev.K0, dev.kappa)
+        tdgl.solve(dev, _options(tdgl, a, os.path.join(tempfile.mkdtemp(prefix="hist"), "h.h5"), 2 * a.get("dt", 2.0 ** -6)),
+                   applied_vector_potential=0.1)
+        dev.layer.coherence_length = float(a["xi"])
+        dev.make_mesh(max_edge_length=a.get("mel", 0.8))
+        if abs(dev.coherence_length.magnitude - float(a["xi"])) > 0:
+            raise core.MachineryFailure("the edited coherence length did not take effect")
+        return dev
     dev = devices.make(tdgl, a.get("dev", "bar"), mel=a.get("mel", 0.8), xi=a.get("xi", 1.0))
     return copy.deepcopy(dev)        # the cached device must not be modified (translate in place)
 
@@ -972,6 +991,57 @@ def _solve_frames(tdgl, *args, **kw):
     except RuntimeError as e:
         return [], f"RuntimeError: {str(e)[:160]}"
     return _frames(sol.path), None
+
+
+def potential_gauge_trace(tdgl, a, tmp):
+    """The documented clause "the uniform-field potential is re-centred on the evaluation points (a gauge choice)" on position
+    arrays of any length: A(r) - (B/2)(-y, x) must be ONE constant vector over ALL positions handed over in one call (a piecewise
+    constant would not be a gauge transformation), and the circulation of A around harness triangles must be B times their area.
+    a: dict(source "constant" | "ramp" | "solver-float", B (mT), N, seed).  Returns one Twin trace: the residual of every chunk of
+    1000 positions is an observation of the same key (first sight defines, the others must be related)."""
+    from tdgl.sources import ConstantField, LinearRamp
+
+    rng = np.random.default_rng(a.get("seed", 0))
+    N, B = int(a["N"]), float(a["B"])
+    nt = N // 3
+    # edge-centre-like positions: the mid points of the sides of nt small triangles scattered over a 60 x 40 um film (+ fill)
+    p0 = np.c_[rng.uniform(-30, 30, nt), rng.uniform(-20, 20, nt)] + np.array(a.get("origin", (7.0, -3.0)))
+    u, v = rng.normal(size=(nt, 2)) * 0.3, rng.normal(size=(nt, 2)) * 0.3
+    corners = [p0, p0 + u, p0 + v]
+    mids = [(corners[k] + corners[(k + 1) % 3]) / 2 for k in range(3)]
+    sides = [corners[(k + 1) % 3] - corners[k] for k in range(3)]
+    extra = np.c_[rng.uniform(-30, 30, N - 3 * nt), rng.uniform(-20, 20, N - 3 * nt)]
+    pos = np.concatenate(mids + [extra])
+    perm = rng.permutation(N)                       # the order in which the positions are handed over is arbitrary
+    inv = np.argsort(perm)
+    x, y, z = pos[perm, 0], pos[perm, 1], np.zeros(N)
+    if a["source"] == "constant":
+        P, kw, Beff = ConstantField(B, field_units="mT", length_units="um"), {}, B
+    elif a["source"] == "ramp":
+        P, kw, Beff = ConstantField(B, field_units="mT", length_units="um") * LinearRamp(tmin=0, tmax=4.0), {"t": 1.0}, B / 4
+    else:
+        raise ValueError(a["source"])
+    A = np.asarray(P(x, y, z, **kw))[:, :2][inv]           # back in the harness's order
+    res = A - (Beff / 2) * np.c_[-pos[:, 1], pos[:, 0]]
+    scale = abs(Beff) * 30.0
+    ev = []
+    for n, lo in enumerate(range(0, N, 1000)):
+        r = res[lo:lo + 1000]
+        ev.append({"run": f"positions {lo}..{min(lo + 1000, N) - 1}", "key": "A - (B/2)(-y, x)  [min x, max x, min y, max y]",
+                   "q": [int(round(float(v_) / scale * 1e6)) for v_ in (r[:, 0].min(), r[:, 0].max(), r[:, 1].min(), r[:, 1].max())]})
+    # circulation around the harness's triangles / (B area)
+    Am = [A[k * nt:(k + 1) * nt] for k in range(3)]
+    circ = sum((Am[k] * sides[k]).sum(axis=1) for k in range(3))
+    area = 0.5 * (u[:, 0] * v[:, 1] - u[:, 1] * v[:, 0])
+    big = np.abs(area) > 1e-3
+    ratio = circ[big] / (Beff * area[big])
+    for n, lo in enumerate(range(0, int(big.sum()), 1000)):
+        rr = ratio[lo:lo + 1000]
+        ev.append({"run": f"triangles {lo}..", "key": "circulation of A around a triangle / (B area)  [min, max]",
+                   "q": [int(round(float(rr.min()) * 1e6)), int(round(float(rr.max()) * 1e6))]})
+    ev.insert(0, {"run": "expected", "key": "circulation of A around a triangle / (B area)  [min, max]", "q": [10 ** 6, 10 ** 6]})
+    return {"args": a, "ev": ev, "info": {"N": N, "chunks": len(range(0, N, 1000)), "spread_of_residual": [float(np.ptp(res[:, 0]) / scale),
+                                                                                                      float(np.ptp(res[:, 1]) / scale)]}}
 
 
 PHI0 = 6.62607015e-34 / (2 * 1.602176634e-19)     # Wb, h / 2e from the exact SI values of h and e: typed in, not taken from the package
